@@ -101,8 +101,8 @@ fn main() {
             rej.push(',');
         }
         rej.push_str(&format!(
-            "{{\"file\":{:?},\"line\":{},\"item\":{:?},\"reason\":{:?}}}",
-            r.file, r.line, r.item, r.reason
+            "{{\"file\":{:?},\"line\":{},\"item\":{:?},\"reason\":{:?},\"module\":{:?},\"kind\":{:?}}}",
+            r.file, r.line, r.item, r.reason, r.module, r.kind
         ));
     }
     rej.push(']');
